@@ -277,6 +277,10 @@ func checkC01(c *Ctx) int {
 		doTier(4, 3, false, true, 0, true)
 		doTier(5, 3, false, false, 24, true)
 	}
+	// trace validation: random interleavings of writes, deletes, reads and repo-level requests
+	nTr, nEv := runKVTraces(c, run, c.pick(150, 1500), c.pick(60, 90), c.pick(10, 14), c.thorough(), c01InnerMerge)
+	run.Set("random_traces_validated_by_tlc", nTr)
+	run.Set("random_trace_events", nEv)
 	run.Set("states", states)
 	run.Set("transitions", trans)
 	run.Set("traces_validated_against_impl", nreads)
